@@ -272,10 +272,12 @@ func famRawSrv(w *World, c *Case, rng *rand.Rand) {
 	} else {
 		if tunnelDead {
 			w.Violate("C09", "client-stream-level-violation-killed-tunnel", "raw server deviation %s/%s is at most a stream-level violation but the channel is done: %v", kind, shape, ch.Err())
+			w.Violate("C03", "raw-deviation-killed-tunnel", "raw server deviation %s/%s on one stream ended the tunnel: %v", kind, shape, ch.Err())
 		} else {
 			// bystander exact
 			if bt == nil || !bt.EOF || len(bmsgs) != 1 || !bmsgs[0].GotOK || bmsgs[0].GotSize != 15 {
 				w.Violate("C09", "client-bystander-disturbed", "raw server deviation %s/%s: bystander call did not complete normally (terminal %v, %d msgs)", kind, shape, bt, len(bmsgs))
+				w.Violate("C03", "raw-deviation-disturbed-bystander", "raw server deviation %s/%s: bystander call did not complete normally", kind, shape)
 			}
 			w.Stat("rawsrv_bystander_checked", 1)
 		}
